@@ -1,6 +1,7 @@
 package props
 
 import (
+	"math/rand/v2"
 	"strings"
 
 	"verifsim/kernel"
@@ -25,6 +26,8 @@ func genC11(seed uint64, run int, tier string) Scenario {
 			}
 		}
 		sc.Sub = "C12"
+		// half of them escalate inside the on-open hook, as platform definitions do
+		sc.OnOpenAcquire = r.IntN(2) == 0
 	}
 	sc.Prop = "C11"
 	sc.Log = true
@@ -48,20 +51,71 @@ func runC11(env *Env, s Scenario) {
 		}
 	}
 	env.Res.Violations = kept
+	if env.Res.Extra == nil {
+		env.Res.Extra = map[string]string{}
+	}
+	env.Res.Extra["writes"] = itoa(c11Writes)
+	env.Res.Extra["emitted"] = itoa(c11Emitted)
 }
+
+// set by the sub-runners' transports (one run at a time per process)
+var c11Writes, c11Emitted int
 
 func expandC11(base Scenario, res *Result, tier string) []Scenario {
 	b := base.(*Session)
-	if b.Sub != "C10" {
+	if len(res.Violations) > 0 || res.HarnessError != "" {
 		return nil
 	}
-	// login dialogues are re-run with the device going silent at a few points (timeout paths)
-	vs := expandC10(base, res, tier)
-	for _, v := range vs {
-		v.(*Session).Class = "log/" + v.(*Session).Class
+	var vs []Scenario
+	if b.Sub == "C10" {
+		// login dialogues are re-run with the device going silent at a few points (timeout paths)
+		vs = expandC10(base, res, tier)
+		if strings.HasPrefix(tier, "quick") && len(vs) > 3 {
+			vs = vs[:3]
+		}
 	}
-	if tier == "quick" && len(vs) > 3 {
-		vs = vs[:3]
+	// ... and both kinds with the connection failing: a write error at every write (so also at
+	// the write that carries a secret), end-of-stream / read error at a stride of byte offsets
+	writes := 0
+	for _, c := range res.Extra["writes"] {
+		writes = writes*10 + int(c-'0')
+	}
+	emitted := 0
+	for _, c := range res.Extra["emitted"] {
+		emitted = emitted*10 + int(c-'0')
+	}
+	r := rand.New(rand.NewPCG(b.SchedSeed, 0xc11))
+	mk := func(kind string, k int) {
+		v := *b
+		v.Ops = append([]OpSpec(nil), b.Ops...)
+		switch kind {
+		case "writeerr":
+			v.F.WriteErrAt = k
+		case "eof":
+			v.F.EOFAt = k
+		case "readerr":
+			v.F.ErrAt = k
+		}
+		v.F.WriteFailAfterLoss = r.IntN(2) == 0
+		v.Class = b.Class + "/" + kind
+		v.SchedSeed = r.Uint64()
+		vs = append(vs, &v)
+	}
+	for w := 0; w < writes; w++ {
+		mk("writeerr", w)
+	}
+	stride := 1
+	if strings.HasPrefix(tier, "quick") && emitted > 10 {
+		stride = (emitted + 9) / 10
+	}
+	for k := 0; k <= emitted; k += stride {
+		mk("eof", k)
+		mk("readerr", k)
+	}
+	for _, v := range vs {
+		if c := v.(*Session); !strings.HasPrefix(c.Class, "log/") {
+			c.Class = "log/" + c.Class
+		}
 	}
 
 	return vs
@@ -78,7 +132,7 @@ func init() {
 				"stub": "SimTransport, login / CLI device models (never echo a secret), fake clock, seeded controller, in-memory log sink",
 			},
 			Assumptions: []string{"the device does not echo secrets (property's assumption)"},
-			QuickRuns:   1200,
+			QuickRuns:   240,
 			ThoroughS:   300,
 		},
 		Gen:    genC11,
